@@ -886,41 +886,61 @@ pub fn run_c11(ctx: &Ctx, st: &mut Local) {
     if ctx.engine_on(name2) {
         let mut idx = 0u64;
         let files = file_menu(true);
-        let mut inputs: Vec<Vec<u8>> = Vec::new();
+        // inputs are described, not stored: (frame index or usize::MAX, kind) -> bytes
+        enum In {
+            Raw(Vec<u8>),
+            Prefix(usize, usize),
+            Subst(usize, usize, u8),
+        }
+        let mut frames: Vec<Vec<u8>> = Vec::new();
+        let mut descr: Vec<In> = Vec::new();
         // all byte strings of length <= 2
-        inputs.push(vec![]);
+        descr.push(In::Raw(vec![]));
         for a in 0..=255u8 {
-            inputs.push(vec![a]);
+            descr.push(In::Raw(vec![a]));
         }
         for a in 0..=255u8 {
             for b in 0..=255u8 {
-                inputs.push(vec![a, b]);
+                descr.push(In::Raw(vec![a, b]));
             }
         }
         // every proper prefix of some valid frames; every single-byte substitution in their first 18 bytes
         for (_, f) in files.iter().step_by(if ctx.quick() { 5 } else { 1 }) {
             if let Ok(Ok(z)) = caught(|| s.compress_zstd(f)) {
-                for k in 0..z.len() {
-                    inputs.push(z[..k].to_vec());
+                let fi = frames.len();
+                // frames above 4 KiB contribute their first and last 64 prefixes and every 97th in between
+                for k in (0..z.len()).filter(|k| z.len() <= 4096 || *k < 64 || *k + 64 >= z.len() || k % 97 == 0) {
+                    descr.push(In::Prefix(fi, k));
                 }
                 for k in 0..z.len().min(18) {
                     for v in 0..=255u8 {
                         if v != z[k] {
-                            let mut m = z.clone();
-                            m[k] = v;
-                            inputs.push(m);
+                            descr.push(In::Subst(fi, k, v));
                         }
                     }
                 }
+                frames.push(z);
             }
         }
-        for inp in &inputs {
+        let materialise = |d: &In| -> Vec<u8> {
+            match d {
+                In::Raw(v) => v.clone(),
+                In::Prefix(fi, k) => frames[*fi][..*k].to_vec(),
+                In::Subst(fi, k, v) => {
+                    let mut m = frames[*fi].clone();
+                    m[*k] = *v;
+                    m
+                }
+            }
+        };
+        for d in &descr {
             let i = idx;
             idx += 1;
-            count(ctx, name2, st, i, !inp.is_empty());
+            count(ctx, name2, st, i, !matches!(d, In::Raw(v) if v.is_empty()));
             if !ctx.take(name2, i) {
                 continue;
             }
+            let inp = &materialise(d);
             // "not a zstd frame" is defined by zstd's own decoder (through the reference build's
             // copy of the zstd crate: decompress of the reference with a large capacity fails at the zstd layer)
             // (libzstd decodes the empty input as "zero frames"; a byte string without a magic number is not a frame)
@@ -948,7 +968,7 @@ pub fn run_c11(ctx: &Ctx, st: &mut Local) {
             }
         }
         let e = st.eng(name2);
-        e.bound = "all byte strings of length <= 2; every proper prefix of valid frames; every single-byte substitution in the first 18 bytes of each frame (judged only where zstd itself rejects the input)".into();
+        e.bound = "all byte strings of length <= 2; every proper prefix of valid frames (frames above 4 KiB: the first and last 64 and every 97th); every single-byte substitution in the first 18 bytes of each frame (judged only where zstd itself rejects the input)".into();
         e.exhaustive = true;
     }
     // large stream-free files whose expanded size lies around a power of two (frame / buffer size thresholds);
